@@ -55,9 +55,17 @@ UNITS = [("d", 86400 * 10**9), ("h", 3600 * 10**9), ("m", 60 * 10**9), ("s", 10*
 
 def _lk():
     from lumicks.pylake import channel
+
+    return channel, None
+
+
+def _timeindex():
+    # the direct tie to the time-string grammar (anchored mechanism, private module path): imported only by the parse
+    # cases, so that a moved module breaks that tie alone; the same strings also reach the code through the public
+    # Slice.__getitem__ in the `get` cases
     from lumicks.pylake.detail import timeindex
 
-    return channel, timeindex
+    return timeindex
 
 
 def build(case):
@@ -181,7 +189,12 @@ def impl(case):
             r = s[np.array(case["mask"], dtype=bool)]
             return [show_samples(r.timestamps, r.data)]
         if k == "parse":
-            return [str(int(timeindex.Timeindex(case["s"]).total_ns))]
+            try:
+                return [str(int(_timeindex().Timeindex(case["s"]).total_ns))]
+            except ImportError:
+                # the module was moved: the channel module still resolves time strings with the same function, which
+                # adds a non-negative value to `first` and a negative one to `after_last` (both 0 here)
+                return [str(int(channel.to_timestamp(case["s"], 0, 0)))]
     except Exception as e:  # mapped to the small enum; compared with the model's error answer
         return [errname(e)]
     raise ValueError(k)
